@@ -154,7 +154,7 @@ func normParams(ps []string) []string {
 }
 
 func c11GenPlugin(r *simrt.Rand, idx int, limit time.Duration, backendFiles []string) c11Plugin {
-	p := c11Plugin{Name: fmt.Sprintf("p%d", idx), ByPath: r.Chance(1, 2), Version: []string{"v0.4.2", "v0.4.1", "v0.5.0", "v1.0.0", "(devel)", "", "none"}[r.Intn(7)]}
+	p := c11Plugin{Name: fmt.Sprintf("p%d", idx), ByPath: r.Chance(1, 2), Version: []string{"v0.4.2", "v0.4.1", "v0.5.0", "v1.0.0", "(devel)", "", "none", "v0.4.2-0.20240101000000-abcdef123456", "v0.4.10", "v0.10.0", "v0.3.99"}[r.Intn(11)]}
 	p.Opts = []string{"", "k=v", "a=1,b,c=x=y", "flag", "path=/x/y:z,q", "k=v,,e="}[r.Intn(6)]
 	sc := map[string]interface{}{"decode": true, "out_prefix": "$OUT"}
 	nonce := func(s string) string { return fmt.Sprintf("%s<%d.%d>", s, idx, r.Intn(100000)) }
